@@ -3,7 +3,7 @@
  * or fault injecting), link-time wrappers that record each endpoint's own view of the handshake
  * (records sent/received by the handshake drivers, ECDH result, TLCP pre-master secret).
  *
- * Link with: -Wl,--wrap=tls_record_send,--wrap=tls_record_recv,--wrap=sm2_do_ecdh,--wrap=tls_pre_master_secret_generate,--wrap=tls_record_set_handshake_certificate,--wrap=hkdf_expand,--wrap=tls_uint24array_to_bytes
+ * Link with: -Wl,--wrap=tls_record_send,--wrap=tls_record_recv,--wrap=sm2_do_ecdh,--wrap=tls_pre_master_secret_generate,--wrap=tls_record_set_handshake_certificate,--wrap=hkdf_expand,--wrap=tls_uint24array_to_bytes,--wrap=sm2_sign_finish
  * Include after common.h and entropy.h, in exactly one translation unit. */
 #ifndef VERIF_TLS_PEER_H
 #define VERIF_TLS_PEER_H
@@ -75,6 +75,45 @@ static int mk_pki_branch(cred_t *root, cred_t *cas, int depth, const char *tag) 
 static int mk_leaf(cred_t *leaf, const cred_t *issuer, const char *cn, int ku, time_t nb, time_t na) {
 	if (sm2_key_generate(&leaf->key) != 1 || mk_name(leaf, cn) != 1) return -1;
 	return mk_cert(leaf, issuer, -1, -1, ku, nb, na);
+}
+static int mk_leaf_sized(cred_t *leaf, const cred_t *issuer, const char *cn, int ku, size_t target) {
+	long fill = (long)target - 400; int tries;
+	if (sm2_key_generate(&leaf->key) != 1) return -1;
+	for (tries = 0; tries < 80; tries++) {
+		char st[129], lo[129], org[65], ou[65], cnb[65]; size_t f = (size_t)(fill > 0 ? fill : 0), a, b, cc, d, e2, cl = strlen(cn); long diff;
+		a = f > 128 ? 128 : f; f -= a; b = f > 128 ? 128 : f; f -= b; cc = f > 64 ? 64 : f; f -= cc; d = f > 64 ? 64 : f; f -= d;
+		e2 = f > 64 - cl ? 64 - cl : f; f -= e2;
+		if (f) return -1;
+		memset(st, 's', a); st[a] = 0; memset(lo, 'l', b); lo[b] = 0; memset(org, 'o', cc); org[cc] = 0; memset(ou, 'u', d); ou[d] = 0;
+		memcpy(cnb, cn, cl); memset(cnb + cl, '.', e2); cnb[cl + e2] = 0;
+		leaf->namelen = 0;
+		if (x509_name_set(leaf->name, &leaf->namelen, sizeof(leaf->name), "CN", a ? st : NULL, b ? lo : NULL, cc ? org : NULL, d ? ou : NULL, cnb) != 1) return -1;
+		if (mk_cert(leaf, issuer, -1, -1, ku, T0 - DAY, T0 + 365 * DAY) != 1) return -1;
+		diff = (long)target - (long)leaf->len;
+		if (diff == 0) return 1;
+		fill += diff;
+		if (fill < 0) return -1;
+	}
+	return -1;
+}
+/* a hierarchy of depth 3 whose presented chains (server: leaf [+ encryption leaf] + 3 CAs; client: leaf + 3 CAs)
+ * have exactly TLS_MAX_CERTIFICATES_SIZE bytes */
+static int mk_pki_exact(pki_t *k, int tlcp) {
+	size_t cas = 0; int i; char pad[101];
+	memset(k, 0, sizeof(*k)); k->depth = 3;
+	if (mk_pki_branch(&k->root, k->ca, 3, "A") != 1) return -1;
+	{	/* the certificates are far below 2048 in total: a longer name for the top intermediate (it occurs twice in a chain) */
+		memset(pad, 'P', 100); pad[tlcp ? 50 : 100] = 0; k->ca[0].namelen = 0;
+		if (x509_name_set(k->ca[0].name, &k->ca[0].namelen, sizeof(k->ca[0].name), "CN", pad, NULL, "PKU", NULL, "Sub CA A 0") != 1
+			|| mk_cert(&k->ca[0], &k->root, 1, 2, X509_KU_KEY_CERT_SIGN, T0 - 2 * DAY, T0 + 365 * DAY) != 1
+			|| mk_cert(&k->ca[1], &k->ca[0], 1, 1, X509_KU_KEY_CERT_SIGN, T0 - 2 * DAY, T0 + 365 * DAY) != 1
+			|| mk_cert(&k->ca[2], &k->ca[1], 1, 0, X509_KU_KEY_CERT_SIGN, T0 - 2 * DAY, T0 + 365 * DAY) != 1) return -1;
+	}
+	for (i = 0; i < 3; i++) cas += k->ca[i].len;
+	if (tlcp && mk_leaf(&k->senc, &k->ca[2], "localhost", X509_KU_KEY_ENCIPHERMENT, T0 - DAY, T0 + 365 * DAY) != 1) return -1;
+	if (mk_leaf_sized(&k->ssign, &k->ca[2], "localhost", X509_KU_DIGITAL_SIGNATURE, TLS_MAX_CERTIFICATES_SIZE - cas - (tlcp ? k->senc.len : 0)) != 1
+		|| mk_leaf_sized(&k->csign, &k->ca[2], "client", X509_KU_DIGITAL_SIGNATURE, TLS_MAX_CERTIFICATES_SIZE - cas) != 1) return -1;
+	return 1;
 }
 static int mk_pki(pki_t *k, int depth) {
 	memset(k, 0, sizeof(*k)); k->depth = depth;
@@ -214,6 +253,20 @@ void __wrap_tls_uint24array_to_bytes(const uint8_t *data, size_t datalen, uint8_
 	}
 	__real_tls_uint24array_to_bytes(data, datalen, out, outlen);
 }
+/* signatures an endpoint produces during its handshake: recorded (mode 1) or replaced by recorded ones
+ * (mode 2: a forger without the private key replays what an honest run produced).  --wrap=sm2_sign_finish */
+typedef struct { int n, next; uint8_t sig[4][96]; size_t len[4]; } sigstore_t;
+static __thread int cur_sig_mode = 0; static __thread sigstore_t *cur_sigs = NULL;
+int __real_sm2_sign_finish(SM2_SIGN_CTX *ctx, uint8_t *sig, size_t *siglen);
+int __wrap_sm2_sign_finish(SM2_SIGN_CTX *ctx, uint8_t *sig, size_t *siglen) {
+	int r;
+	if (cur_sig_mode == 2 && cur_sigs && cur_sigs->next < cur_sigs->n) {
+		int k = cur_sigs->next++; memcpy(sig, cur_sigs->sig[k], cur_sigs->len[k]); *siglen = cur_sigs->len[k]; return 1;
+	}
+	r = __real_sm2_sign_finish(ctx, sig, siglen);
+	if (cur_sig_mode == 1 && cur_sigs && r == 1 && cur_sigs->n < 4 && *siglen <= 96) { memcpy(cur_sigs->sig[cur_sigs->n], sig, *siglen); cur_sigs->len[cur_sigs->n++] = *siglen; }
+	return r;
+}
 /* TLS 1.3: HKDF-Expand-Label(.., "key" / "iv", ..) outputs, in the order the driver derives them
  * (server handshake, client handshake, server application, client application).  --wrap=hkdf_expand */
 #include <gmssl/digest.h>
@@ -265,7 +318,8 @@ typedef struct {
 typedef struct {
 	int fd[2];                     /* fd[0] faces the client, fd[1] faces the server */
 	fault_t fault;
-	int split; uint64_t split_seed;/* split forwarded bytes at pseudo-random points (short reads) */
+	int split; uint64_t split_seed;/* split forwarded bytes at pseudo-random points (short reads); 2 = also always inside the record header, with a pause */
+	int at_record_start;
 	int nrec[2]; size_t reclen[2][PMAXREC]; uint8_t rectype[2][PMAXREC];
 	size_t rechdrlen[2][PMAXREC];
 	volatile int stop;
@@ -275,13 +329,16 @@ typedef struct {
 
 static uint64_t px_rand(proxy_t *p) { uint64_t z = (p->split_seed += 0x9E3779B97F4A7C15ULL); z = (z ^ (z >> 30)) * 0xBF58476D1CE4E5B9ULL; z = (z ^ (z >> 27)) * 0x94D049BB133111EBULL; return z ^ (z >> 31); }
 static int px_write(proxy_t *p, int fd, const uint8_t *b, size_t n) {
+	p->at_record_start = 1;
 	while (n) {
 		size_t k = n; ssize_t w;
 		if (p->split && n > 1) { k = 1 + px_rand(p) % n; if (px_rand(p) % 3 == 0) k = 1 + px_rand(p) % (n < 7 ? n : 7); }
+		if (p->split == 2 && p->at_record_start && n > 4) k = 1 + px_rand(p) % 4;      /* always cut inside the 5-byte header */
+		p->at_record_start = 0;
 		w = send(fd, b, k, MSG_NOSIGNAL);
 		if (w <= 0) return -1;
 		b += w; n -= (size_t)w;
-		if (p->split && n) { struct timespec ts = { 0, 200000 }; nanosleep(&ts, NULL); }
+		if (p->split && n) { struct timespec ts = { 0, p->split == 2 ? 3000000 : 200000 }; nanosleep(&ts, NULL); }
 	}
 	return 0;
 }
@@ -369,6 +426,7 @@ typedef struct {
 	int empty_cert;                          /* client only: send a Certificate message with an empty list (TLCP / TLS 1.2) */
 	int forge_pos; const uint8_t *forge_cert; size_t forge_cert_len;   /* forge_cert != NULL: the certificate at this position of the chain sent is replaced */
 	uint8_t *forged_chain; size_t forged_chain_len;
+	int sig_mode; sigstore_t *sigs;           /* 1: record the signatures this endpoint makes; 2: replay them instead of signing */
 	pthread_t th;
 } endpoint_t;
 
@@ -412,6 +470,7 @@ static void *endpoint_main(void *arg) {
 	endpoint_t *e = arg;
 	ent_seed(e->seed, -1); ent_clock(e->clock);
 	cur_view = &e->view; cur_empty_cert = e->empty_cert;
+	cur_sig_mode = e->sig_mode; cur_sigs = e->sigs;
 	if (e->forge_cert) {
 		if (e->protocol == TLS_protocol_tls13) {
 			forge13_base = e->is_client ? e->conn->client_certs : e->conn->server_certs;
@@ -427,7 +486,7 @@ static void *endpoint_main(void *arg) {
 		}
 	}
 	e->hs_ret = tls_do_handshake(e->conn);
-	cur_view = NULL; cur_empty_cert = 0; forge_chain = NULL; forge13_cert = NULL; forge13_base = NULL; forge13_pos = -1;
+	cur_view = NULL; cur_empty_cert = 0; cur_sig_mode = 0; cur_sigs = NULL; forge_chain = NULL; forge13_cert = NULL; forge13_base = NULL; forge13_pos = -1;
 	e->post_send_ret = e->post_recv_ret = -99;
 	if (e->hs_ret == 1 && e->post) {
 		static const pmsg_t dflt[2] = { { 16, 0 }, { 16, 0 } };
